@@ -200,6 +200,15 @@ def e3_inheritance(doc, full):
     d["structures"].append({"name": "VerifDiamondLeft", "properties": [{"name": "left", "type": B("string"), "optional": True}], "mixins": [R("WorkDoneProgressOptions")]})
     d["structures"].append({"name": "VerifDiamondRight", "properties": [{"name": "right", "type": B("string"), "optional": True}], "mixins": [R("WorkDoneProgressOptions")]})
     out.append(("diamond: a structure listed FIRST whose two parents (listed last) both mix in WorkDoneProgressOptions", "E3:diamond-listed-first", d))
+    d = copy.deepcopy(doc)
+    d["structures"].append({"name": "VerifSnapshotIdentifier", "properties": [{"name": "version", "type": B("integer"), "optional": True}],
+                            "extends": [R("OptionalVersionedTextDocumentIdentifier")]})
+    d["structures"].append({"name": "VerifSnapshotChild", "properties": [{"name": "label", "type": B("string"), "optional": True}], "extends": [R("VerifSnapshotIdentifier")]})
+    d["structures"].append({"name": "VerifPlainRegistrationOptions", "properties": [{"name": "documentSelector", "type": R("DocumentSelector"), "optional": True}],
+                            "extends": [R("TextDocumentRegistrationOptions")]})
+    d["notifications"].append({"method": "verif/snapshot", "typeName": "VerifSnapshotNotification", "params": R("VerifSnapshotChild"), "messageDirection": "clientToServer"})
+    out.append(("derived structures re-declare an inherited null-admitting property (version, documentSelector) as a plain optional one; grandchild is a notification's params",
+                "E3:override-drops-null+E5", d))
     if full:
         d = copy.deepcopy(doc)
         d["structures"].append({"name": "VerifOverride", "properties": [{"name": "position", "type": R("Range")}], "extends": [R(BASE)]})
